@@ -82,3 +82,34 @@ func flipByte(msg []byte, at int) []byte {
 	out[at] ^= 0x01
 	return out
 }
+
+// tweakKey turns a reveal message into the reveal of ANOTHER valid key: the group generator is added to the key (BLS: the G2 element;
+// PS: the X component). The result is a well-formed key that is off whatever polynomial the genuine one is on.
+func (s scheme) tweakKey(msg []byte) ([]byte, bool) {
+	if len(msg) < 2 {
+		return nil, false
+	}
+	if s.Name == "bls" {
+		g, err := curve.NewG2FromBytes(msg[1:])
+		if err != nil {
+			return nil, false
+		}
+		g.Add(curve.GenG2)
+		return append([]byte{msg[0]}, g.Bytes()...), true
+	}
+	var xys ps.XYs
+	if _, err := asn1.Unmarshal(msg[1:], &xys); err != nil {
+		return nil, false
+	}
+	g, err := curve.NewG2FromBytes(xys.X)
+	if err != nil {
+		return nil, false
+	}
+	g.Add(curve.GenG2)
+	xys.X = g.Bytes()
+	b, err := asn1.Marshal(xys)
+	if err != nil {
+		return nil, false
+	}
+	return append([]byte{msg[0]}, b...), true
+}
